@@ -61,13 +61,17 @@ PARTIAL = ['clause "a well-formed document to which a single unmatched delimiter
            'whatever follows), C05_fault_opening2_any_suffix_partial (the same in front of any stray closing token, any left '
            'context, any suffix), C05_fault_unclosed2_partial (the input ends inside nested unclosed constructs: error 6 '
            'located right after the opening of the innermost one; covers { inserted in a group standing at top level, whose '
-           'outer group is left unclosed); hypotheses on the FAULTED text, against the follow string: the items in front of '
+           'outer group is left unclosed; { inserted in a group nested elsewhere is an instance of the nested theorem by '
+           're-reading the faulted text), C05_fault_closing2_macro_arg_partial / C05_fault_opening2_macro_arg_partial (a stray '
+           '\\), \\] or \\end{x}, resp. an unmatched opening delimiter other than {, at an item boundary of the body of a BRACED '
+           'MANDATORY ARGUMENT of a macro call written in such a body - the argument being the innermost construct: rejected '
+           'where it stands, resp. at the closing brace of the argument); hypotheses on the FAULTED text, against the follow string: the items in front of '
            'the delimiter well formed in front of everything written after them, a math delimiter outside math mode and $ '
            'not directly followed by $, the environment resolved by the context with well-formed arguments, the items after '
            'the delimiter well formed in the state of the NEW construct\'s body. NOT proved for extended documents '
            '(correspondence + oracle only): an opening delimiter inserted in a $ $ / $$ $$ formula, a math delimiter '
-           'inserted in math mode, { in a group nested in another construct than the top level, paths through braced macro '
-           'arguments / specials arguments (delimited arguments: closing tokens only), verbatim environments as the inserted '
+           'inserted in math mode, paths that CONTINUE below a braced macro argument, specials arguments '
+           '(delimited arguments: closing tokens only), verbatim environments as the inserted '
            'delimiter, insertion points inside an item, and the derivation of the hypotheses on the faulted text from '
            'ok_doc2 of the original document. Proved in Coq for every string: '
            'C05_no_other_exception(_run, _any_fuel), C05_result_shape, C05_errors_located(_top), C05_error_line_col',
